@@ -258,7 +258,7 @@ def const_attr(draw, used_names, profile) -> dict:
 
 
 DOC_ATOMS = ["plain text", "a < b && c > d", "<b>bold</b>", "</pre><script>alert(1)</script>", "&amp; &lt;", '"quoted" \'single\'',
-             "-->", "<!-- x", "*/ end", "/* open", "\\ backslash \\n", "{{ jinja }} {% x %}", "tab\there", "trailing  ", "%s %d",
+             "-->", "<!-- x", "*/ end", "/* open", "\\ backslash \\n", "{{ jinja }} {% x %}", "tab\there", "trailing  ", "%s %d", "backslash then blanks \\  ",
              "``code``", ":ref:`x`", "@param x", "#define X", "https://example.com/?a=1&b=2", "  indented", "$ dollars", "~!@^"]
 
 
